@@ -24,10 +24,13 @@ static ptrdiff_t g_cs_value;     /* value_ at the beginning of the current criti
 static long g_waits;             /* number of blocking waits performed by this call */
 static int g_last_wake;          /* result of the last blocking wait */
 static bool g_lastrel_ok;        /* INV(0) held at the last release point */
+static long g_releases;          /* number of release points passed by this call (saturating at 2) */
+static ptrdiff_t g_first_rel_value; /* value_ at the first release point */
+static struct vx_mutex *g_mtx;
 
 #define VX_BIG 1000000000L
 #define OWNS_P(l) ((l)->owns && (l)->m->held)
-#define SEM_FRAME self->value_, g_cs_value, g_waiters, g_inflight, g_waits, g_last_wake, g_lastrel_ok, l->owns, l->m->held
+#define SEM_FRAME self->value_, g_cs_value, g_waiters, g_inflight, g_waits, g_last_wake, g_lastrel_ok, g_releases, g_first_rel_value, l->owns, l->m->held
 #define RELY_RANGE (vx_self->value_ >= 0 && vx_self->value_ <= VX_BIG && g_waiters >= 0 && g_waiters <= VX_BIG && \
                     g_inflight >= 0 && g_inflight <= VX_BIG)
 #define INV(owed) (g_count != 1 || g_waiters == 0 || vx_self->value_ <= g_inflight + (owed))
@@ -35,7 +38,8 @@ static bool g_lastrel_ok;        /* INV(0) held at the last release point */
 #define MON_AT_RELEASE() do { \
     VX_ASSERT(vx_self->value_ >= 0, "monitor invariant at release: value_ >= 0 (acquisitions never exceed initial + released)"); \
     VX_ASSERT(INV(g_owed), "monitor invariant at release: a waiter stays queued only while all permits are spoken for (no lost wake-up)"); \
-    g_lastrel_ok = INV(0); } while (0)
+    g_lastrel_ok = INV(0); if (g_releases == 0) g_first_rel_value = vx_self->value_; \
+    if (g_releases < 2) g_releases++; } while (0)
 #define MON_AT_ACQUIRE() do { \
     vx_self->value_ = nondet_ptrdiff(); g_waiters = nondet_long(); g_inflight = nondet_long(); \
     VX_ASSUME(RELY_RANGE && INV(g_owed)); g_cs_value = vx_self->value_; } while (0)
@@ -85,12 +89,12 @@ static bool cv_notify_one(struct cv *c, struct ulock l)
   VX_ASSERT(vx_owns_v(l), "cv.notify_one called without the internal lock");
   bool more = false;
   g_notifies++;
+  if (g_owed > 0) g_owed--; /* one of the promised notify_one calls has now been made */
   if (g_waiters > 0)
   {
     g_waiters--;
     g_inflight++;
     more = g_waiters > 0;
-    if (g_owed > 0) g_owed--;
   }
   ulock_dtor(&l);
   return more;
